@@ -51,6 +51,38 @@ type Work struct {
 	Reruns  int   `json:"reruns"`             // sequential re-runs of the shared tree
 	ErrTail bool  `json:"errtail"`            // program ends with a runtime error
 	OptMode int   `json:"opt_mode,omitempty"` // vm.Options: 0 a fresh value per execution, 1 nil, 2 one value shared by all executions (as hosts do)
+	// SharedBase: every environment of the case is a child of ONE base environment in which an earlier run defined a
+	// small library (one prelude, many requests): the executions then call the SAME script function values. Otherwise
+	// each environment defines the library itself.
+	SharedBase bool `json:"shared_base,omitempty"`
+}
+
+// the library of SharedBase: functions that go through every calling convention (fixed arities below and above
+// the fast path, variadic, with a deferred call, returning a closure)
+const baseLibSrc = "func blib1(a) { return a }\nfunc blib5(a, b, c, d, e) { return [a, b, c, d, e] }\nfunc blibv(x, r...) { return [x, r] }\nfunc blibd(a, b, c, d, e, f) {\ndefer func(q) { return q }(a)\nreturn [f, a]\n}\nfunc blibk(a) { return func(b...) { return [a, b] } }"
+
+var (
+	baseLibOnce sync.Once
+	baseLibTree ast.Stmt
+	// sharedBase is set for the duration of a case whose Work says SharedBase (cases run one at a time per process)
+	sharedBase *env.Env
+)
+
+func baseLib() ast.Stmt {
+	baseLibOnce.Do(func() { baseLibTree, _ = parser.ParseSrc(baseLibSrc) })
+	return baseLibTree
+}
+
+// withBase arranges the case's base environment (or none) and returns the function that undoes it.
+func withBase(w *Work) func() {
+	if !w.SharedBase {
+		return func() {}
+	}
+	b := env.NewEnv()
+	st, _ := parser.ParseSrc(baseLibSrc)
+	vm.Run(b, nil, st)
+	sharedBase = b
+	return func() { sharedBase = nil }
 }
 
 var templates = []func(u string) string{
@@ -113,6 +145,19 @@ var templates = []func(u string) string{
 	func(u string) string { return "rec(hostA(hostA(1)))\nrec(1 in [1, base])\nrec(len(\"abc\") + base)" },
 	func(u string) string {
 		return "if base == 10 { rec(\"a\") } else if base == 20 { rec(\"b\") } else { rec(\"c\") }"
+	},
+	// the library functions (defined by every environment itself, or once in a base environment all executions share)
+	func(u string) string {
+		return "rec(blib5(base, 1, hostA(2), \"s\", base))\nrec(blibv(base, base, hostA(1)))\nrec(blibv(hostA(3)))\nrec(blib1(base))"
+	},
+	func(u string) string {
+		return "rec(blibd(base, 2, 3, 4, 5, hostA(6)))\nk" + u + " = blibk(base)\nrec(k" + u + "(base, 1))\nrec(blibv([base, base]...))"
+	},
+	// chains of three and five else-ifs (the parser grows such lists one element at a time: they have spare capacity)
+	func(u string) string {
+		return "if base == 1 { rec(\"a\") } else if base == 2 { rec(\"b\") } else if base == 20 { rec(\"c\") } else if base == 3 { rec(\"d\") } else { rec(\"e\") }\n" +
+			"if base == 1 { rec(1) } else if base == 2 { rec(2) } else if base == 3 { rec(3) } else if base == 4 { rec(4) } else if base == 30 { rec(5) } else if base == 6 { rec(6) } else { rec(7) }\n" +
+			"switch base {\ncase 1, 2, 3:\nrec(\"s1\")\ncase 10, 20, 30:\nrec(\"s2\")\ncase 40:\nrec(\"s3\")\ndefault:\nrec(\"s4\")\n}"
 	},
 	func(u string) string {
 		return "try {\nfunc() { defer rec(\"deferred\"); throw \"inner\" + base }()\n} catch e" + u + " { rec(e" + u + ") } finally { rec(\"fin\") }"
@@ -278,6 +323,7 @@ func (Prop) Gen(seed int64, tier string) *harness.Case {
 	w.Reruns = 1 + r.Intn(3)
 	w.ErrTail = r.Intn(5) == 0
 	w.OptMode = r.Intn(3)
+	w.SharedBase = r.Intn(3) == 0
 	wb, _ := json.Marshal(w)
 	density := []int{2, 10, 30, 60}[r.Intn(4)]
 	return &harness.Case{Prop: "C14", Seed: seed, Tier: tier, Workload: wb,
@@ -396,6 +442,16 @@ func dumpTree(n interface{}) string {
 				walk(v.Index(i), depth+1)
 				b.WriteString(",")
 			}
+			if v.Kind() == reflect.Slice && v.Cap() > v.Len() && v.Cap()-v.Len() <= 64 {
+				// the storage behind the slice belongs to the tree as well: an append to a slice of the tree that has
+				// spare capacity writes there without changing anything a walk over the elements would see
+				all := v.Slice(0, v.Cap())
+				b.WriteString("|spare:")
+				for i := v.Len(); i < all.Len(); i++ {
+					walk(all.Index(i), depth+1)
+					b.WriteString(",")
+				}
+			}
 			b.WriteString("]")
 		case reflect.String:
 			b.WriteString(strconv.Quote(v.String()))
@@ -484,7 +540,13 @@ func render(v interface{}) string {
 
 // mkEnv builds configuration i: the same names bound to different things.
 func mkEnv(i int, out *runOut, mu *sync.Mutex) *env.Env {
-	e := env.NewEnv()
+	var e *env.Env
+	if sharedBase != nil {
+		e = sharedBase.NewEnv()
+	} else {
+		e = env.NewEnv()
+		vm.Run(e, nil, baseLib())
+	}
 	core.Import(e)
 	e.Define("base", int64(10*(i+1)))
 	e.Define("ow", i%2 == 0)
@@ -537,7 +599,7 @@ func bindings(e *env.Env) string {
 	sort.Strings(syms)
 	var parts []string
 	for _, s := range syms {
-		if s == "envid" {
+		if s == "envid" || strings.HasPrefix(s, "blib") {
 			continue
 		}
 		v, _ := e.Get(s)
@@ -816,6 +878,10 @@ func (Prop) Run(t *testing.T, c *harness.Case, verbose bool) *harness.Result {
 		res.Signature = class
 		return res
 	}
+	defer withBase(&w)()
+	if w.SharedBase {
+		res.Counters["executions_share_a_base_environment"]++
+	}
 	dump0 := dumpTree(shared)
 	pk0 := packagesDigest()
 	if g := ProcessGlobals(); g != "" {
@@ -963,6 +1029,7 @@ func RunReal(c *harness.Case) string {
 	if err != nil {
 		return ""
 	}
+	defer withBase(&w)()
 	// sequential reference runs first (separately parsed tree), then the concurrent ones must equal them
 	solo := make([]*runOut, w.Envs)
 	vsolo := make([]*runOut, w.Envs)
